@@ -113,6 +113,7 @@ func Run(n, mp int, ver primitive.ProtocolVersion, ops []Op, path []int) (canon 
 			defer cancel()
 			h := client.VNewHandler(ctx, n, mp, time.Hour)
 			inflight := map[int16]*rreq{}
+			shadow := map[int16]*rreq{} // earlier requests whose id was handed out again while the peer still answers them
 			closed := false
 			everExplicit := false
 			serial := 0
@@ -158,8 +159,11 @@ func Run(n, mp int, ver primitive.ProtocolVersion, ops []Op, path []int) (canon 
 						if full {
 							fail("C09", "accepted-when-full", "onOutgoingFrameEnqueued", "%s accepted with id %d although %d requests are unanswered (limit %d)", step, got, len(inflight), n)
 						}
-						if _, dup := inflight[got]; dup {
+						if old, dup := inflight[got]; dup {
 							fail("C09", "duplicate-id", "onOutgoingFrameEnqueued", "%s accepted with id %d which an unanswered request carries", step, got)
+							// the peer is still answering the earlier request: its remaining pages carry this id but are not
+							// meant for the new one
+							shadow[got] = old
 						}
 						if op.Kind == "sendM" && (got < 1 || int(got) > n) {
 							fail("C09", "id-out-of-range", "borrowStreamId", "%s: managed id %d outside 1..%d", step, got, n)
@@ -177,6 +181,16 @@ func Run(n, mp int, ver primitive.ProtocolVersion, ops []Op, path []int) (canon 
 						}
 					}
 				case "final", "page":
+					if sh := shadow[op.K]; sh != nil && !closed {
+						// a late page of the EARLIER request with this id (only reachable after a duplicate id was handed
+						// out): it must not reach the request that now carries the id - the queues checked by compare stay put
+						_ = h.In(respFrame(op.K, op.Kind == "final", sh.serial, sh.pages+1))
+						sh.pages++
+						if op.Kind == "final" {
+							delete(shadow, op.K)
+						}
+						break
+					}
 					m := inflight[op.K]
 					ser, pg := 0, 1
 					if m != nil {
@@ -252,6 +266,22 @@ func Run(n, mp int, ver primitive.ProtocolVersion, ops []Op, path []int) (canon 
 			fmt.Fprintf(&b, "closed=%v free=%v reqs=", h.IsClosedFlag(), h.FreeIds())
 			for _, r := range h.Requests() {
 				fmt.Fprintf(&b, "[%d m=%v q=%d d=%v]", r.Id, r.Managed, r.Queued, r.Done)
+			}
+			// a state in which the reference model no longer agrees with the implementation about who is unanswered
+			// must not be merged with the ordinary state that looks the same from the implementation's side: its
+			// futures differ (late pages of a request the implementation has already forgotten)
+			if !closed {
+				var mk []string
+				for k, m := range inflight {
+					mk = append(mk, fmt.Sprintf("%d:%v", k, m.done))
+				}
+				for k := range shadow {
+					mk = append(mk, fmt.Sprintf("s%d", k))
+				}
+				sort.Strings(mk)
+				if fmt.Sprint(len(inflight)) != fmt.Sprint(len(h.InFlightIds())) || len(shadow) > 0 {
+					fmt.Fprintf(&b, " MODEL-DIVERGED%v", mk)
+				}
 			}
 			canon = b.String()
 			// differential conservation check from this state: answer everything, then n managed sends
